@@ -8,6 +8,7 @@ package main
 import (
 	"bufio"
 	"bytes"
+	"database/sql/driver"
 	"encoding/json"
 	"fmt"
 	"io"
@@ -34,6 +35,10 @@ type Exec struct {
 	groupers []qframe.Grouper
 	gbirth   []int
 	views    []func() []Cell
+
+	lastLen        map[string]int   // length of the last complete ToCSV / ToJSON output
+	lastStore      [][]driver.Value // rows stored by the last ToSQL (round trip)
+	lastStoreNames []string
 	scn      int
 	step     int
 	nEvents  int
@@ -1163,9 +1168,11 @@ func (x *Exec) dispatch(st *Step, ev Ev) {
 		ev["res"] = b2i(eq)
 	case "Rebuild":
 		x.rebuild(st, ev)
+	case "ToSQL", "ReadSQL":
+		x.sqlOps(st, ev)
 	case "FloatFmt", "FloatJSON":
 		x.floatOps(st, ev)
-	case "ToCSV", "ToJSON", "String", "ReadCSV", "ReadJSON", "ToSQL", "ReadSQL", "CsvScan", "Scribble", "View":
+	case "ToCSV", "ToJSON", "String", "ReadCSV", "ReadJSON", "CsvScan", "Scribble", "View":
 		x.dispatchIO(st, ev)
 	case "SliceObs":
 		// subsequent observations use View.Slice() instead of View.ItemAt(i)
